@@ -1,2 +1,125 @@
-/- placeholder driver for C16: replaced when the check for C16 is built -/
-def main : IO Unit := IO.println "not-built"
+import CashewsVerif.Driver.Proto
+import CashewsVerif.Model.TxFault
+/-
+Driver for C16.  One request line = one run of a transaction block under a fault set:
+
+  run mode=<fast|locked|serializable> timeout=<ticks> attempts=<n> uprio=<b.lk,...|-> faults=<i,j,...|->
+      data=<b.k.v.dl,...|-> flocks=<b.lk,...|-> body=<cmd;cmd;...|-> probe=<b.k.v>
+
+body commands: set.b.k.v.ttl  incr.b.k  get.b.k  del.b.k  adv.dt  raise      (`-` = no ttl / no deadline)
+
+Answer (one line):
+  exc=<none|fault:i|locked|body> ctx=<none|some> (`~` = empty list) trace=<ev;...> outs=<r,...> locks=<b.lk.m|f.dl,...> data=<b.k=v,...> probe=<ok|lost>
+-/
+open CashewsVerif CashewsVerif.Proto CashewsVerif.TxFault
+
+def splitList (s : String) (sep : String) : List String :=
+  if s = "-" ∨ s = "" then [] else s.splitOn sep
+
+def parseOptNat? (s : String) : Option (Option Nat) :=
+  if s = "-" then some none else s.toNat?.map some
+
+def parseMode? : String → Option Mode
+  | "fast" => some .fast
+  | "locked" => some .locked
+  | "serializable" => some .serializable
+  | _ => none
+
+def parseBody? (s : String) : Option BodyCmd :=
+  match s.splitOn "." with
+  | ["set", b, k, v, ttl] => do pure (.set (← b.toNat?) (← k.toNat?) (← v.toInt?) (← parseOptNat? ttl))
+  | ["incr", b, k] => do pure (.incr (← b.toNat?) (← k.toNat?))
+  | ["get", b, k] => do pure (.get (← b.toNat?) (← k.toNat?))
+  | ["del", b, k] => do pure (.delete (← b.toNat?) (← k.toNat?))
+  | ["adv", dt] => do pure (.adv (← dt.toNat?))
+  | ["raise"] => some .raise
+  | _ => none
+
+def parsePair? (s : String) : Option (Nat × Nat) :=
+  match s.splitOn "." with
+  | [a, b] => do pure (← a.toNat?, ← b.toNat?)
+  | _ => none
+
+def parseData? (s : String) : Option ((Nat × Nat) × DEntry) :=
+  match s.splitOn "." with
+  | [b, k, v, dl] => do pure ((← b.toNat?, ← k.toNat?), ⟨← v.toInt?, ← parseOptNat? dl⟩)
+  | _ => none
+
+def parseProbe? (s : String) : Option (Nat × Nat × Int) :=
+  match s.splitOn "." with
+  | [b, k, v] => do pure (← b.toNat?, ← k.toNat?, ← v.toInt?)
+  | _ => none
+
+def field? (ws : List String) (name : String) : Option String :=
+  (ws.find? fun w => w.startsWith (name ++ "=")).map fun w => (w.drop (name.length + 1)).toString
+
+def showOptNat : Option Nat → String
+  | none => "-"
+  | some n => toString n
+
+def sortStrings (l : List String) : List String := (l.toArray.qsort (· < ·)).toList
+
+def showKV (kv : Nat × Int) : String := s!"{kv.1}:{kv.2}"
+
+def showCmd : BCmd → String
+  | .get k => s!"get.{k}"
+  | .set k v => s!"set.{k}.{v}"
+  | .setLock lk ttl => s!"setlock.{lk}.{ttl}"
+  | .unlock lk => s!"unlock.{lk}"
+  | .deleteMany ks => "delmany." ++ "+".intercalate (sortStrings (ks.map toString))
+  | .setMany kvs ttl => s!"setmany.{showOptNat ttl}." ++ "+".intercalate (sortStrings (kvs.map showKV))
+
+def showEv (e : Ev) : String := s!"{e.b}.{showCmd e.cmd}" ++ (if e.failed then "!" else "")
+
+def showReply : Reply → String
+  | .unit => "U"
+  | .bool true => "T"
+  | .bool false => "F"
+  | .val none => "-"
+  | .val (some v) => s!"v{v}"
+  | .int i => s!"n{i}"
+
+def showErr : Err → String
+  | .fault i => s!"fault:{i}"
+  | .locked => "locked"
+  | .body => "body"
+
+def dash (l : List String) (sep : String) : String := if l.isEmpty then "~" else sep.intercalate l
+
+def runLine (ws : List String) : Option String := do
+  let mode ← parseMode? (← field? ws "mode")
+  let timeout ← (← field? ws "timeout").toNat?
+  let attempts ← (← field? ws "attempts").toNat?
+  let uprio ← allSome ((splitList (← field? ws "uprio") ",").map parsePair?)
+  let faults ← allSome ((splitList (← field? ws "faults") ",").map String.toNat?)
+  let data ← allSome ((splitList (← field? ws "data") ",").map parseData?)
+  let flocks ← allSome ((splitList (← field? ws "flocks") ",").map parsePair?)
+  let body ← allSome ((splitList (← field? ws "body") ";").map parseBody?)
+  let probe ← parseProbe? (← field? ws "probe")
+  let cfg : Cfg := ⟨mode, timeout, attempts, uprio, fun i => faults.contains i⟩
+  let w0 : FWorld := { FWorld.init with data := data, locks := flocks.map fun p => (p, ⟨false, none⟩) }
+  let (r, w1) := runBlock cfg body w0
+  let exc := match r with
+    | .ok _ => "none"
+    | .err e => showErr e
+  let ctx := if w1.ctx.isSome then "some" else "none"
+  let trace := dash (w1.log.map showEv) ";"
+  let outs := dash (w1.outs.map showReply) ","
+  let locks := dash (sortStrings (w1.locks.map fun (p, e) =>
+    s!"{p.1}.{p.2}.{if e.mine then "m" else "f"}.{showOptNat e.dl}")) ","
+  -- the probe: a facade write right after the block, with fault injection switched off
+  let (_, w2) := facadeSet { cfg with fails := fun _ => false } probe.1 probe.2.1 probe.2.2 w1
+  let pr := if dataView w2 probe.1 probe.2.1 = some probe.2.2 then "ok" else "lost"
+  let dat := dash (sortStrings (w2.data.filterMap fun (p, _) =>
+    (dataView w2 p.1 p.2).map fun v => s!"{p.1}.{p.2}={v}")) ","
+  pure s!"exc={exc} ctx={ctx} trace={trace} outs={outs} locks={locks} data={dat} probe={pr} now={w1.now}"
+
+def step (_ : Unit) (line : String) : Unit × String :=
+  match words line with
+  | "run" :: ws =>
+    match runLine ws with
+    | some s => ((), s)
+    | none => ((), "bad-op")
+  | _ => ((), "bad-op")
+
+def main : IO Unit := mainLoop step ()
